@@ -42,9 +42,11 @@ def gen_case(rng):
         pk = round(mp + rng.uniform(-4, 4), rng.choice([1, 2, 6]))
         gs.append((q, pk, mp, rng.random() > 0.12))
     grid = rng.choice([(0.0, 14.0, 1.0), (0.0, 14.0, 0.5), (2.0, 9.0, 0.25), (3.0, 3.0, 1.0), (0.0, 1.0, 0.125), (-2.0, 16.0, 3.0), (0.0, 14.0, 0.1), (1.1, 2.3, 0.3)])
-    lo = rng.choice([0.0, 0.0, 2.0, -1.0, 5.5])
-    hi = lo + rng.choice([14.0, 8.0, 3.0, 0.5])
-    prec = rng.choice([1e-4, 1e-4, 1e-2, 1e-6, 0.5])
+    lo = rng.choice([0.0, 0.0, 2.0, -1.0, 5.5, -50.0, -200.0])
+    hi = lo + rng.choice([14.0, 8.0, 3.0, 0.5] if lo > -50.0 else [100.0, 450.0])
+    # precisions down to 1e-12: still above the spacing of binary64 numbers in these windows (2.8e-14 at 250), so that the stated
+    # precision can be met at all; below the spacing no binary64 answer can satisfy the property (see DESIGN A.9)
+    prec = rng.choice([1e-4, 1e-4, 1e-2, 1e-6, 0.5, 1e-8, 1e-10, 1e-12])
     return gs, grid, (lo, hi), prec
 
 
@@ -95,6 +97,11 @@ def run(chk: common.Check):
             if k < len(cases):
                 cases[k] = (gs0, (0.0, 14.0, 2.0), win, 1e-4)
                 k += 1
+    # precision far below / window far beyond the defaults (the number of halvings needed is log2(width / precision): 31 and 26 here)
+    amph = [(-1, 4.0, 3.8, True), (1, 10.2, 10.5, True), (1, 6.9, 6.5, True)]
+    cases[k] = (amph, (0.0, 14.0, 2.0), (0.0, 14.0), 1e-8)
+    cases[k + 1] = (amph, (0.0, 14.0, 2.0), (-200.0, 250.0), 1e-5)
+    cases[k + 2] = (amph, (0.0, 14.0, 2.0), (2.0, 12.0), 1e-10)
     exprs, meta = [], []
     found = []
     orig = propka.group.Group.calculate_charge
